@@ -27,6 +27,8 @@ OBLIGATION_MSGS = (
     "cannot show invariant holds",
     "failed to prove",
     "could not show termination",
+    "unable to prove post-condition of closure",
+    "unable to prove pre-condition of closure",
 )
 
 
